@@ -566,6 +566,8 @@ pub fn generate(rng: &mut Rng, mode: Mode, form: Form) -> Graph {
                 // function-like macros: definitions and uses
                 if form == Form::Pre && funcs { 3 } else { 0 },
                 if form == Form::Pre && funcs { 5 } else { 0 },
+                // a name redefined with another signature and the very same replacement list
+                if form == Form::Pre && funcs { 1 } else { 0 },
             ];
             match weighted(rng, &w) {
                 0 => {
@@ -740,6 +742,26 @@ pub fn generate(rng: &mut Rng, mode: Mode, form: Form) -> Graph {
                         String::new()
                     };
                     lines.push(format!("m_{i}_{counter} {inv}{tail} ;"));
+                }
+                16 => {
+                    // `#define N(a) body` ... `#define N(a,b) body` (or object-like <-> `N()`):
+                    // the later definition counts although its replacement list reads the same
+                    counter += 1;
+                    let n = format!("SIG_{i}_{counter}");
+                    let body = [format!("a + {}", rng.range(1, 9)), "( a )".to_string(), "a".to_string()]
+                        [rng.below(3) as usize]
+                        .clone();
+                    let flat = rng.range(1, 9).to_string();
+                    let (d1, u1, d2, u2) = match rng.below(4) {
+                        0 => (format!("{n}(a) {body}"), format!("{n}(2)"), format!("{n}(a,b) {body}"), format!("{n}(3,4)")),
+                        1 => (format!("{n}(a,b) {body}"), format!("{n}(2,3)"), format!("{n}(a) {body}"), format!("{n}(4)")),
+                        2 => (format!("{n} {flat}"), n.clone(), format!("{n}() {flat}"), format!("{n}()")),
+                        _ => (format!("{n}() {flat}"), format!("{n}()"), format!("{n} {flat}"), format!("{n} ( )")),
+                    };
+                    lines.push(hash(rng, &format!("#define {d1}")));
+                    lines.push(format!("m_{i}_{counter}a {u1} ;"));
+                    lines.push(hash(rng, &format!("#define {d2}")));
+                    lines.push(format!("m_{i}_{counter}b {u2} ;"));
                 }
                 8 => {
                     counter += 1;
